@@ -43,7 +43,8 @@ RULE_EXPRS = [
     "re.compile(x)", "all(a for a in x if a)", "all(a for a in x for b in a)", "all([a for a in x])", "all(x)", "all()", "all(a for a in x, 1)",
     "all(a > 0 for a in range(len(x)))", "any(a for a in range(1))", "any(a for a in range(1, 2, 3))", "any(a for a in range(0, len(x)))",
     "all(a for (a, b) in x)", "all(a async for a in x)", "any(self.x[i] == 0 for i in range(0, 2))", "all(all(b for b in a) for a in x)",
-    "all(x for x in x)", "all(self for self in x)", "not (x is not None) or len(x) >= 1", "not x or not y or z", "(not x) or y",
+    "all(x for x in x)", "all(self for self in x)", "all(all(a > 0 for a in x) for a in x)", "any(all(a for a in a) for a in x)",
+    "all(a and any(a for a in x) for a in x)", "all(any(b for b in x) and all(b for b in x) for a in x)", "not (x is not None) or len(x) >= 1", "not x or not y or z", "(not x) or y",
     "not (not x or y)", "not not x", "x is not None and y is not None", "(x is None) == (y is None)", "x is True", "x is not y", "None is x",
     "x == None", "x in [1, 2]", "x in Some_kinds", "self.x in Some_strings", "self in x", "x.y in z.w", "x + y + z", "x - -1", "'a' + 'b'",
     "-True", "-1.5", "-(1)", "- -1", "-x.y", "f'{x!r}'", "f'{x!s}'", "f'{x:>3}'", "f'{x:{y}}'", "f'{x}{y}'", "f'^{x}$'", "f'{f()}'",
@@ -83,7 +84,8 @@ STMTS = [
     "return match(text, text) is not None", "return match(pattern, x) is not None", "return match(pattern) is not None",
     "return match(pattern, text, 0) is not None", "return not match(pattern, text)", "return match(pattern, text) is None",
     "return re.match(pattern, text) is not None", "return matches_something(text)", "return len(text) > 0", "return value > 0",
-    "return all(c == 'a' for c in text)", "pattern = 'a'", "pattern = f'^{prefix}$'", "pattern = prefix", "pattern = text", "text = 'a'",
+    "return all(c == 'a' for c in text)", "return all(all(c == 'a' for c in text) for c in text)", "c = 'a'\nreturn all(c == 'a' for c in text)",
+    "return any(text == 'a' for text in text)", "pattern = 'a'", "pattern = f'^{prefix}$'", "pattern = prefix", "pattern = text", "text = 'a'",
     "pattern = 1", "pattern = None", "pattern = 'a' + 'b'", "pattern = f'{1}'", "pattern = f'{text}'", "pattern = f'{unknown}'",
     "pattern = '^a{4294967296}$'", "pattern = '('", "pattern = '['", "self.pattern = 'a'", "pattern[0] = 'a'", "pattern: str = 'a'",
     "match = 'a'", "re = 'a'", "pattern", "'a'", "f'a'", "f'{x}'", "b'bytes'", "1", "None", "x", "self", "f()", "f(x)", "x.f()", "x > 0",
